@@ -80,8 +80,20 @@ def gen_iface(rng, n_ns=None, styles=None, rich=True, encoded=False):
                 attrs[-1]["default"] = "true"
             if attrs[-1]["use"] == "required":
                 attrs[-1]["default"] = None
+        if rich and base is None:
+            # names that are Python keywords: suds hands them back as 'cls' / 'dfn' (only in types without a
+            # base type, so that a flattened content model never has the name twice)
+            leaves = [m for m, _path in flatten_particle(p)]
+            for kw in ("class", "def"):
+                if leaves and rng.random() < 0.08:
+                    m = rng.choice(leaves)
+                    if m["name"] not in ("class", "def"):
+                        m["name"] = kw
+                        m["keyword_name"] = True
         if rich and not encoded:
             for m, _path in flatten_particle(p):
+                if m.get("keyword_name"):
+                    continue
                 if rng.random() < 0.12:
                     # a reference to a global element, possibly of another namespace
                     m["ref_ns"] = rng.randrange(n_ns)
@@ -458,6 +470,7 @@ class Rendering:
         self.wsdl_tns_is_ns0 = kw.get("wsdl_tns_is_ns0", False)
         self.mixed_block_forms = kw.get("mixed_block_forms", False)
         self.block_styles = kw.get("block_styles", False)   # every schema block picks its own prefixes / defaults
+        self.root_prefixes = kw.get("root_prefixes", True)   # <definitions> declares the interface namespaces' prefixes
         self.inline = set()        # filled by render() when anonymous
 
 
@@ -485,7 +498,8 @@ def inlinable(iface):
 def random_rendering(rng):
     return Rendering(rng, prefixes={i: rng.choice(["t%d" % i, "ns%d" % i, "p%s" % "abc"[i % 3] * (i + 1)]) for i in range(3)},
                      wsdl_tns_is_ns0=rng.random() < 0.3, anonymous=rng.random() < 0.4,
-                     mixed_block_forms=rng.random() < 0.3, block_styles=rng.random() < 0.6, default_ns_schema=rng.random() < 0.4, shuffle=rng.random() < 0.7, groups=rng.random() < 0.5,
+                     mixed_block_forms=rng.random() < 0.3, block_styles=rng.random() < 0.6,
+                     root_prefixes=rng.random() < 0.7, default_ns_schema=rng.random() < 0.4, shuffle=rng.random() < 0.7, groups=rng.random() < 0.5,
                      attr_groups=rng.random() < 0.5, element_refs=rng.random() < 0.4, split_blocks=rng.random() < 0.4)
 
 
@@ -521,7 +535,7 @@ def _member_xml(r, iface, m, own_ns, block_form=None, extra_decls=None):
     if m["max"] != 1:
         a.append('maxOccurs="%s"' % m["max"])
     if m["nillable"]:
-        a.append('nillable="true"')
+        a.append('nillable="%s"' % (r.rng.choice(["true", "1"]) if (r.rng is not None and r.block_styles) else "true"))
     form = m["form"]
     if block_form is not None:
         # the enclosing schema block's default differs from the namespace's: say the form when it is not the block's
@@ -542,7 +556,7 @@ def _particle_xml(r, iface, p, own_ns, extra_decls, tag_hint, block_form=None):
         if "kind" in it:
             inner.append(_particle_xml(r, iface, it, own_ns, extra_decls, "%s_%d" % (tag_hint, i), block_form))
         elif r.element_refs and block_form is None and not (it["type"][0] == "c" and it["type"][1] in r.inline) \
-                and it.get("ref_ns") is None and it["form"] is None and iface["namespaces"][own_ns]["form"] == "qualified" \
+                and it.get("ref_ns") is None and not it.get("keyword_name") and it["form"] is None and iface["namespaces"][own_ns]["form"] == "qualified" \
                 and r.rng is not None and r.rng.random() < 0.5:
             # a global element + ref: same expanded name because the schema is qualified
             gname = it["name"]
@@ -686,6 +700,10 @@ def render_schemas(r, iface):
             text = ('<xsd:schema xmlns:xsd="%s" xmlns:soapenc="%s" xmlns:wsdl="%s" %s%s targetNamespace="%s"%s>'
                     % (XSD, ENC, WSDLNS, nsdecl, dflt, iface["namespaces"][ns]["uri"], fattr)
                     + "@@IMPORTS:%d@@" % ns + "".join(decls) + "</xsd:schema>")
+            own_decl = ' xmlns:%s="%s"' % (r.prefixes[ns], iface["namespaces"][ns]["uri"])
+            if style == "tns-default" and r.block_styles and ('"%s:' % r.prefixes[ns]) not in text \
+                    and text.count(own_decl) == 1:
+                text = text.replace(own_decl, "", 1)      # the target namespace has no prefix in this block
             if style == "xsd-default":
                 text = to_xsd_default(text)
             blocks.append(text)
@@ -727,17 +745,35 @@ def plain_imports(iface, ns, locate=None, only=None):
 
 def wsdl_sections(r, iface, location, wns):
     msgs, ptops, bops = [], [], []
+    n = len(iface["namespaces"])
+
+    def part(name, attr, ns, local):
+        """One wsdl:part; its QName prefix is the definitions-level one or, with block_styles, one declared on the
+        part itself - possibly the name definitions binds to another namespace (shadowing)."""
+        if ns is None:
+            return '<wsdl:part name="%s" %s="xsd:%s"/>' % (name, attr, local)
+        if r.rng is not None and (not r.root_prefixes or (r.block_styles and r.rng.random() < 0.4)):
+            pfx = r.rng.choice(["pp%d" % ns] + ([r.prefixes[(ns + 1) % n]] if n > 1 else []))
+            return '<wsdl:part name="%s" %s="%s:%s" xmlns:%s="%s"/>' % (name, attr, pfx, local, pfx,
+                                                                      iface["namespaces"][ns]["uri"])
+        return '<wsdl:part name="%s" %s="%s:%s"/>' % (name, attr, r.prefixes[ns], local)
+
+    def tpart(p):
+        if p["type"][0] == "b":
+            return part(p["name"], "type", None, p["type"][1])
+        return part(p["name"], "type", p["type"][1][0], p["type"][1][1])
+
     for op in iface["ops"]:
         st = op["style"]
         if st == "wrapped":
-            pin = '<wsdl:part name="parameters" element="%s:%s"/>' % (r.prefixes[0], op["name"])
-            pout = '<wsdl:part name="parameters" element="%s:%sResponse"/>' % (r.prefixes[0], op["name"])
+            pin = part("parameters", "element", 0, op["name"])
+            pout = part("parameters", "element", 0, op["name"] + "Response")
         elif st == "bare":
-            pin = "".join('<wsdl:part name="%s" element="%s:%s_%s"/>' % (p["name"], r.prefixes[0], op["name"], p["name"]) for p in op["in"])
-            pout = "".join('<wsdl:part name="%s" element="%s:%s_%s"/>' % (p["name"], r.prefixes[0], op["name"], p["name"]) for p in op["out"])
+            pin = "".join(part(p["name"], "element", 0, "%s_%s" % (op["name"], p["name"])) for p in op["in"])
+            pout = "".join(part(p["name"], "element", 0, "%s_%s" % (op["name"], p["name"])) for p in op["out"])
         else:
-            pin = "".join('<wsdl:part name="%s" type="%s"/>' % (p["name"], _q(r, iface, p["type"])) for p in op["in"])
-            pout = "".join('<wsdl:part name="%s" type="%s"/>' % (p["name"], _q(r, iface, p["type"])) for p in op["out"])
+            pin = "".join(tpart(p) for p in op["in"])
+            pout = "".join(tpart(p) for p in op["out"])
         msgs.append('<wsdl:message name="%sIn">%s</wsdl:message><wsdl:message name="%sOut">%s</wsdl:message>'
                     % (op["name"], pin, op["name"], pout))
         ptops.append('<wsdl:operation name="%s"><wsdl:input message="w:%sIn"/><wsdl:output message="w:%sOut"/>'
@@ -763,6 +799,8 @@ def wsdl_sections(r, iface, location, wns):
 def definitions(r, iface, wns, inner):
     n = len(iface["namespaces"])
     nsdecl = " ".join('xmlns:%s="%s"' % (r.prefixes[j], iface["namespaces"][j]["uri"]) for j in range(n))
+    if not r.root_prefixes and r.rng is not None:
+        nsdecl = ""      # every QName in the WSDL part declares its prefix where it is used
     return ('<?xml version="1.0" encoding="UTF-8"?><wsdl:definitions targetNamespace="%s" xmlns:wsdl="%s" '
             'xmlns:w="%s" xmlns:soap="%s" xmlns:xsd="%s" %s>%s</wsdl:definitions>'
             % (wns, WSDLNS, wns, SOAPNS, XSD, nsdecl, inner)).encode("utf-8")
@@ -1100,6 +1138,9 @@ def spec_reply_nodes(iface, op, outvals):
     return [{"name": [rpc_ns(iface), op["name"] + "Response"], "attrs": [], "text": "", "children": nodes}]
 
 
+PY_NAMES = {"class": "cls", "def": "dfn"}
+
+
 def decoded(iface, ttype, value):
     """Normal form of the Python data a reply value denotes: dicts for objects (with '__class__'),
     lists for repeating members, None for nil."""
@@ -1125,9 +1166,9 @@ def decoded(iface, ttype, value):
             if not isinstance(v, list):
                 v = [v]
             if v:
-                out[m["name"]] = [decoded(iface, m["type"], x) for x in v]
+                out[PY_NAMES.get(m["name"], m["name"])] = [decoded(iface, m["type"], x) for x in v]
         else:
-            out[m["name"]] = decoded(iface, m["type"], v)
+            out[PY_NAMES.get(m["name"], m["name"])] = decoded(iface, m["type"], v)
     return out
 
 
